@@ -46,7 +46,8 @@ CFG = {
             "loops: self, cycle, lasso, long, dangling, cyclic containers at 18 reference positions; 15 /DecodeParms shapes with extreme /Predictor /Columns "
             "/Colors /BitsPerComponent singly and as parallel arrays; Flate, ASCIIHex, ASCII85 and chained filters; 15 extreme numbers substituted into "
             "/Length, /N, /First, /W, /Index, /Prev, startxref; classic-table, xref-stream (+Flate), object-stream, incrementally-updated and encrypted "
-            "layouts; /Prev self, cycle and out-of-range; nesting 10..10^5 (thorough 10^6) levels in an object, in a content stream and inside a "
+            "layouts (corpus/C01/encrypted_hybrid.case: the complete one-page document as a hybrid file whose trailer declares /Encrypt - the code refuses the /XRefStm stream and exits (the oracle accepts completed or rejected; the model correspondence pins which), "
+            "the control without the declaration completes); /Prev self, cycle and out-of-range; nesting 10..10^5 (thorough 10^6) levels in an object, in a content stream and inside a "
             "compatibility section); a content-stream family on a one-page document that reaches text extraction (about 170 hostile snippets: stray "
             "delimiters inside and outside BX..EX, nested/lone BX EX, unterminated strings/arrays/dictionaries, operators with missing or extra "
             "operands, BT/ET mismatches, unknown operators, inline images with binary data, numbers at the i64/i128 limits, names with #00, comments "
